@@ -35,3 +35,5 @@ def run(ctx):
     cmp_many(ctx, MD, [('MD6.__init__', S.MD6_INIT), ('MD6.__call__', S.MD6_CALL), ('MD6.SEQ', S.MD6_SEQ),
                        ('MD6.PAR', S.MD6_PAR), ('MD6.f', S.MD6_F)])
     cmp_fn(ctx, 'Nullpadding.lastblock', PAD, 'Nullpadding.lastblock', P.NULL_LAST)
+
+    dependencies(ctx, ['crysp/bits.py', 'crysp/md.py', 'crysp/padding.py', 'crysp/poly.py'], 'C17')
